@@ -347,5 +347,5 @@ Lemma refuted_download_trailing_dot_proof :
   o_code (exec w_allowed fs (RDownload "/allowed/link")) = 1%N /\
   escapes w_allowed fs (RDownload "/allowed/link/.") = true /\
   escapes w_allowed fs (RDownload "/allowed/link/") = true /\
-  o_payload (exec w_allowed fs (RDownload "/allowed/link/.")) = "<directory>".
+  o_payload (exec w_allowed fs (RDownload "/allowed/link/.")) = "<directory>:".
 Proof. vm_compute. repeat split; reflexivity. Qed.
